@@ -26,6 +26,7 @@ func main() {
 	smoothSections(r, k3, r.N(24000, 150000), r.N(5000, 30000))
 	smoothSections(r, k2, r.N(24000, 150000), r.N(5000, 30000))
 	rectSetSection(r, r.N(6000, 36000))
+	rectSetForkSection(r, r.N(2500, 20000))
 
 	for _, t := range []string{"3d", "2d"} {
 		r.Require(t+".bool.points", 10000)
